@@ -119,7 +119,7 @@ class PatGen:
         attrs = []
         for nm in rng.sample(ATTR_NAMES, rng.choice([0, 0, 1, 1, 2])):
             attrs.append([nm, self.new_attr()])
-        nres = rng.choice([1, 1, 1, 1, 1, 2, 2, 2, 1, 1, 1, 0] if root else [1, 1, 2, 0])
+        nres = rng.choice([1, 1, 1, 1, 1, 2, 2, 2, 1, 1, 1, 0] if root else [1, 1, 2, 2, 2, 3, 0])
         types = [self.pick_type() for _ in range(nres)]
         i = self.fresh("o")
         self.match.append({"k": "op", "id": i, "name": name, "operands": operands, "attrs": attrs, "types": types})
@@ -561,8 +561,45 @@ class Payload:
         return "\n".join(self.lines) + "\n"
 
 
+MUTATION_WEIGHTS = (["name"] * 2 + ["opcount+", "opcount-"] + ["attrval"] * 3 + ["attrmissing", "attrextra"] + ["type"] * 2 +
+                    ["rescount+", "rescount-"] + ["shared-operand"] * 3 + ["shared-type"] * 3 + ["chain-arg"] * 2 +
+                    ["chain-index"] * 4 + ["typed-attr-type"] + ["attr-is-prop"] * 2)
+
+
+def _applicable(kind, site, by, ops):
+    """Cheap test whether mutation `kind` can find something to change at op `site` (misses are tolerated: an
+    instance whose mutation found no site is recorded as 'exact')."""
+    s = by[site]
+    name = s["name"] or ""
+    if name.startswith("arith.") and kind not in ARITH_MUTATIONS:
+        return False
+    if kind in ("name", "opcount+", "rescount+", "attrextra"):
+        return True
+    if kind == "opcount-":
+        return bool(s["operands"])
+    if kind in ("rescount-", "type"):
+        return bool(s["types"])
+    if kind in ("attrval", "attrmissing"):
+        return bool(s["attrs"])
+    if kind == "attr-is-prop":
+        return any(n.startswith("prop") for n, _ in s["attrs"])
+    if kind == "typed-attr-type":
+        return any(by[a]["type"] is not None for _, a in s["attrs"])
+    if kind == "chain-arg":
+        return any(by[v]["k"] == "result" for v in s["operands"])
+    if kind == "chain-index":
+        return any(by[v]["k"] == "result" and len(by[by[v]["of"]]["types"]) >= 2 for v in s["operands"])
+    if kind == "shared-operand":
+        allops = [v for o in ops for v in by[o]["operands"] if by[v]["k"] == "operand"]
+        return any(by[v]["k"] == "operand" and allops.count(v) >= 2 for v in s["operands"])
+    if kind == "shared-type":
+        alltys = [t for o in ops for t in by[o]["types"]]
+        return any(by[t]["const"] is None and alltys.count(t) >= 2 for t in s["types"])
+    return True
+
+
 def gen_payload(rng, spec, exact_only=False):
-    """Payload text + list of (mutation kind | 'exact', applied) per instance."""
+    """Payload text + list of (mutation kind | 'exact') per instance."""
     ops = [s["id"] for s in spec["match"] if s["k"] == "op"]
     by = {s["id"]: s for s in spec["match"]}
     p = Payload(rng, in_func=rng.random() < 0.5)
@@ -573,13 +610,14 @@ def gen_payload(rng, spec, exact_only=False):
             break
         if rng.random() < 0.3:
             p.junk()
-        if exact_only or rng.random() < 0.4:
-            mut = None
-        else:
-            site = rng.choice(ops)
-            nm = by[site]["name"] or ""
-            # arith ops have fixed arity / type rules: only mutations that keep the payload verifiable
-            mut = (rng.choice(ARITH_MUTATIONS if nm.startswith("arith.") else MUTATIONS), site)
+        mut = None
+        if not exact_only and rng.random() >= 0.4:
+            for _ in range(4):
+                kind = rng.choice(MUTATION_WEIGHTS)
+                sites = [o for o in ops if _applicable(kind, o, by, ops)]
+                if sites:
+                    mut = (kind, rng.choice(sites))
+                    break
         res, applied = p.instance(spec, mut)
         plan.append(("exact" if (mut is None or not applied) else mut[0]))
         if rng.random() < 0.8:
